@@ -158,7 +158,7 @@ func validators(t *rapid.T, label string) [][2]string {
 // arguments are hard to tokenise - quoted commas, escaped quotes, a quoted string that ends in
 // an escaped backslash - and a list long enough to hit any cap on the number of members. None
 // of them may change how the directives after them are read.
-var ExtDirectives = []string{`ext="a\"b"`, `ext="a\",b"`, `ext="x, no-cache"`, `ext="C:\\"`, `ext="\\\\"`, `ext="\\", ext2="y"`,
+var ExtDirectives = []string{`ext="a\", must-revalidate, \"b"`, `ext="\", stale-if-error=600, \""`, `ext="\", no-store, \""`, `ext="\", max-age=0, \"", ext3`, `ext="a\"b"`, `ext="a\",b"`, `ext="x, no-cache"`, `ext="C:\\"`, `ext="\\\\"`, `ext="\\", ext2="y"`,
 	"e1, e2=2, e3, e4=\"4\", e5, e6, e7, e8, e9, e10, e11, e12, e13, e14, e15, e16, e17, e18",
 	"e1, e1, e1, e1, e1, e1, e1, e1, e1, e1, e1, e1, e1, e1, e1, e1, e1",
 	// long lists: no limit on the number of members is part of the grammar
